@@ -134,7 +134,10 @@ def render_moltype(sysd, mt):
         first.append(k)
         for j, a in enumerate(r["atoms"]):
             row = "%d %s %d %s %s %d %.3f" % (k + j, a["atype"], mt.get("resids", range(1, 10 ** 6))[ri], shown(sysd, rn), a["name"], k + j, a["charge"])
-            if a["mass"] is not None:
+            m_over = mt.get("mass_over", {}).get((ri, j))
+            if m_over is not None:
+                row += " %r" % m_over
+            elif a["mass"] is not None:
                 row += " %r" % a["mass"]
             lines.append(row)
         for i, j, b0, kb in r["bonds"]:
@@ -194,10 +197,28 @@ def expected_rows(sysd):
 def total_mass(sysd):
     m = 0.0
     for mt in expand(sysd):
-        for rn in mt["res"]:
-            for a in sysd["residues"][rn]["atoms"]:
-                m += a["mass"] if a["mass"] is not None else sysd["atypes"][a["atype"]]["mass"]
+        for ri, rn in enumerate(mt["res"]):
+            for j, a in enumerate(sysd["residues"][rn]["atoms"]):
+                over = mt.get("mass_over", {}).get((ri, j))
+                if over is not None:
+                    m += over
+                else:
+                    m += a["mass"] if a["mass"] is not None else sysd["atypes"][a["atype"]]["mass"]
     return m
+
+
+def add_mass_overrides(rng, sysd):
+    """some atoms of some residue instances carry their own mass in the [ atoms ] line (heavier end groups, isotopes):
+    copies of one residue then differ in mass; virtual sites keep mass 0"""
+    n = 0
+    for mt in sysd["moltypes"]:
+        for ri, rn in enumerate(mt["res"]):
+            if rng.random() < 0.3:
+                for j, a in enumerate(sysd["residues"][rn]["atoms"]):
+                    if not a["name"].startswith("V") and rng.random() < 0.6:
+                        mt.setdefault("mass_over", {})[(ri, j)] = rng.choice([12.0, 100.0, 150.5, 250.0])
+                        n += 1
+    return n
 
 
 def n_residues(sysd):
